@@ -285,9 +285,24 @@ def worker(args):
             if h not in seen:
                 seen.add(h)
                 ntriv += 1
+        # what the inputs looked like: sizes, scope trees, unusual kinds and strings
+        nops = len(prog["ops"])
+        for key in ("size:ops<=10" if nops <= 10 else "size:ops<=20" if nops <= 20 else "size:ops<=40" if nops <= 40 else "size:ops>40",
+                    "scopes:%d" % (1 + sum(1 for o in prog["ops"] if o["op"] == "scope"))):
+            dist[key] = dist.get(key, 0) + 1
+        text = json.dumps(prog["fns"]) + json.dumps(prog["ops"])
+        for tag, needles in (("uses:non-pointer-implementer", ['"u": 71']), ("uses:chan/map/func-types", ['"u": 82', '"u": 83', '"u": 84', '"u": 85']),
+                             ("uses:array-types", ['"u": 80', '"u": 81']), ("uses:odd-strings", ['<', '>', '&', '\\"', '\\\\', "'"]),
+                             ("uses:chain>=17", ['_17"'])):
+            if any(n in text for n in needles):
+                dist[tag] = dist.get(tag, 0) + 1
         for op, o in zip(prog["ops"], st["it"].get("ops", [])):
             key = op["op"] + ":" + props.vclass(o["v"])
             dist[key] = dist.get(key, 0) + 1
+            ve = props.verr(o["v"])
+            if ve:
+                rk = "error-kind:" + ("cycle" if ve.get("cyc") else (ve.get("chain") or ["?"])[-1]) + "/" + str(ve.get("root", "?")).split(":")[0]
+                dist[rk] = dist.get(rk, 0) + 1
             for e in o.get("ev", []):
                 if e["e"] == "exit":
                     dist["exec:" + e["r"]] = dist.get("exec:" + e["r"], 0) + 1
@@ -454,6 +469,13 @@ def main():
         graph_stats, gfails = kgraph.run(tier, seed)
         fails.extend(gfails)
 
+    # K-tags for C09, C14
+    tag_stats = None
+    if pid in ("C09", "C14"):
+        import ktags
+        tag_stats, tfails = ktags.run(tier, seed)
+        fails.extend(tfails)
+
     # K-label for C19
     label_stats = None
     if pid == "C19":
@@ -503,6 +525,13 @@ def main():
             path = os.path.join(VERIF, "replays", "%s-graph-%s.json" % (pid, reported))
             json.dump(dict(f, property=pid, broken="K-graph"), open(path, "w"), indent=1)
             violations.append((path, ""))
+            reported += 1
+            continue
+        if f["kind"] == "tag":
+            path = os.path.join(VERIF, "replays", "%s-tag-%s.json" % (pid, reported))
+            json.dump(dict(f, property=pid, broken="K-tags"), open(path, "w"), indent=1)
+            violations.append((path, " no-failing-input-found"))
+            log("  tag: %s" % f["descr"])
             reported += 1
             continue
         if f["kind"] == "label":
@@ -572,6 +601,8 @@ def main():
         cov["k_graph"] = graph_stats
     if label_stats:
         cov["k_label"] = label_stats
+    if tag_stats:
+        cov["k_tags"] = tag_stats
     if m2_stats:
         cov["generated_source_mode"] = m2_stats
     if pr.get("leanchecker"):
